@@ -20,14 +20,15 @@ EMP4 = frozenset(['CpoR', 'HoRT', 'SoR', 'GoRT'])
 # what each pool class implements itself (inherited _ModelBase placeholders are not "supported")
 SUPPORT = {
     'SG': ALL9, 'SA': ALL9, 'CM': ALL9, 'TSM': ALL9, 'TS2': ALL9,
-    'NG': EMP4, 'NS': EMP4, 'SH': EMP4, 'N9': EMP4, 'TSN': EMP4,
+    'XSG': EMP4, 'NS': EMP4, 'SH': EMP4, 'N9': EMP4, 'TSN': EMP4,
     # a BEP carries U, H, S, F, G (and the trivial q=1, Cv=Cp=0 of its base class); no E
     'BEP': frozenset(['q', 'CvoR', 'CpoR', 'UoRT', 'HoRT', 'SoR', 'FoRT', 'GoRT']),
     'BEPE': frozenset(['q', 'CvoR', 'CpoR', 'UoRT', 'HoRT', 'SoR', 'FoRT', 'GoRT']),
     'BEPR': frozenset(['q', 'CvoR', 'CpoR', 'UoRT', 'HoRT', 'SoR', 'FoRT', 'GoRT']),
 }
 STATMECH_KEYS = ('SG', 'SA', 'CM', 'TSM', 'TS2')
-SIDE_POOL = ['SG', 'SA', 'CM', 'NG', 'NS', 'SH', 'N9']
+# 'XSG' ends with 'SG' on purpose: a keyword block addressed to the longer name must not reach the shorter one
+SIDE_POOL = ['SG', 'SA', 'CM', 'XSG', 'NS', 'SH', 'N9']
 
 
 def build_species(key, surface_bep=False):
@@ -63,8 +64,8 @@ def build_species(key, surface_bep=False):
         return StatMech(name='TS2', elements={'H': 1},
                         vib_model=HarmonicVib(vib_wavenumbers=[1500.0, 305.5]),
                         elec_model=GroundStateElec(potentialenergy=0.12, spin=0))
-    if key == 'NG':
-        return Nasa(name='NG', T_low=200., T_mid=600., T_high=3500., phase='G', elements={'H': 2},
+    if key == 'XSG':
+        return Nasa(name='XSG', T_low=200., T_mid=600., T_high=3500., phase='G', elements={'H': 2},
                     a_low=[3.21, 1.1e-3, -2.0e-6, 1.5e-9, -3.0e-13, -450.0, 5.5],
                     a_high=[3.05, 1.4e-3, -1.1e-6, 3.0e-10, -2.0e-14, -395.0, 6.25])
     if key == 'NS':
